@@ -101,7 +101,7 @@ def main():
         "proposal that changes the state with acceptance strictly between 0 and 1."
     )
     try:
-        r = tlc.run(SPEC, "PedigreeSampler", "MC_%s.cfg" % tier, timeout=3000)
+        r = tlc.run(SPEC, "PedigreeSampler", "MC_%s.cfg" % tier, timeout=3000 if tier == "quick" else 7000)
         ck.add_tlc(r, "PedigreeSampler")
         if r.violated:
             ck.violation("model", {"invariant": r.violated, "text": r.error_text[:1500]}, key={"model": "PedigreeSampler"})
